@@ -1174,7 +1174,7 @@ assert "does not judge them either" not in PROPS["C14"]["partial_gap"]
 PROPS["C02"]["also"] = [("C06", "views"), ("C06", "rotation")]
 PROPS["C13"]["also"] = list(PROPS["C13"].get("also", [])) + [("C05", "panic")]
 
-# ---- ORACLE SOUNDNESS of the FDL monitors (agent fdlx; Proofs/FdlOracleSound1..10.v, FdlOracleSoundAll.v) --------------------------------
+# ---- ORACLE SOUNDNESS of the FDL monitors (agent fdlx; Proofs/FdlOracleSound1..11.v, FdlOracleSoundAll.v) --------------------------------
 # "The executable monitors of Model/FdlOracle.v that run on the implementation's transcripts never reject a transcript
 #  of the MODEL."  Texts only: what is proved per property, and which rules are NOT yet covered.
 _FDL_OS = ('ORACLE SOUNDNESS (Proofs/FdlOracleSound*.v): model_transcript = the event list the driver would build from a run of the model '
@@ -1208,6 +1208,9 @@ PROPS["C11"]["level_note"] += (' ' + _FDL_OS + 'C11_oracle_sound_partial: of the
     'delivered are those the receive loops hand to handle_telegram.')
 PROPS["C11"]["partial_gap"] += ' Oracle soundness: the liveness rule supervision_never_ends is NOT yet covered.'
 PROPS["C12"]["level_note"] += (' ' + _FDL_OS + 'C12_oracle_sound_partial: the rules gap_poll_outside_gap, two_gap_polls_per_visit, found_not_successor, '
-    'found_not_next_token, successor_changed_without_ready_reply are never reported on a model transcript (all input histories, app_sends_data).')
-PROPS["C12"]["partial_gap"] += (' Oracle soundness: the rules reply_without_request, reply_untruthful, reply_from_wrong_state, sweep_bound, '
-    'post_claim_scan_incomplete, gap_wait_never_ends are NOT yet covered.')
+    'found_not_next_token, successor_changed_without_ready_reply are never reported on a model transcript (all input histories, app_sends_data); '
+    'C12_oracle_sound_partial_req: for applications that transmit request telegrams (app_sends_requests) also reply_without_request, reply_untruthful, '
+    'reply_from_wrong_state are never reported - only sweep_bound, post_claim_scan_incomplete and gap_wait_never_ends remain.')
+PROPS["C12"]["partial_gap"] += (' Oracle soundness: the rules sweep_bound, post_claim_scan_incomplete and the liveness rule gap_wait_never_ends are NOT yet '
+    'covered; the reply rules are covered only for applications that send request telegrams (a response telegram with the own source address from an '
+    'application would be taken for a status reply).')
